@@ -403,7 +403,15 @@ def daily_data(cls_name, tz):
 
 
 def frame_sig(df):
+    """order-sensitive digest of a prediction frame; floats bit-level, every NaN the same NaN (the statement compares
+    the NaN pattern, not NaN payload bits)"""
     import fitlib
+    df = df.copy()
+    for c in df.columns:
+        if df[c].dtype.kind == "f":
+            x = df[c].to_numpy(copy=True)
+            x[np.isnan(x)] = np.nan
+            df[c] = x
     return fitlib.frame_digest(df)
 
 
